@@ -5,7 +5,7 @@
           301 application books, 302 queue books, 303 node allocation not owned by a live application,
           304 application allocation not on its node, 305 root vs nodes, 306 leak after drain. *)
 From Coq Require Import List ZArith NArith Bool.
-From YK Require Import Base.Res Core.Obs Core.Ledger.
+From YK Require Import Base.Res Core.Obs Core.Ledger Oracles.CoreModelCheck.
 Import ListNotations.
 Open Scope N_scope.
 
@@ -113,6 +113,22 @@ Fixpoint steps_check (f : ostate -> ostep -> list N) (pre : ostate) (i : N) (l :
 Definition hist_check (f : ohistory -> ostate -> ostep -> list N) (h : ohistory) : list (N * N) :=
   steps_check (f h) (h_init h) 0 (h_steps h).
 
+(* as steps_check, but failures at or after a known-finding trigger (Core/Ledger.v known_trigger) are reported
+   with the known kind base + 60 + trigger number *)
+Fixpoint steps_check_poison (base : N) (f : ostate -> ostep -> list N) (poison : option N) (pre : ostate) (i : N) (l : list ostep) : list (N * N) :=
+  match l with
+  | [] => []
+  | st :: t =>
+      let poison' := match poison with Some p => Some p | None => known_trigger pre st end in
+      let ks := f pre st in
+      let ks' := match poison' with
+                 | Some p => match ks with [] => [] | _ => [base + 60 + p] end
+                 | None => ks end in
+      map (fun k => (i, k)) ks' ++ steps_check_poison base f poison' (st_obs st) (i + 1) t
+  end.
+Definition hist_check_poison (base : N) (f : ohistory -> ostate -> ostep -> list N) (h : ohistory) : list (N * N) :=
+  steps_check_poison base (f h) None (h_init h) 0 (h_steps h).
+
 Fixpoint all_check (f : ohistory -> list (N * N)) (i : N) (cs : list ohistory) : list (N * N) :=
   match cs with
   | [] => []
@@ -126,11 +142,16 @@ Fixpoint first_of_kind (seen : list N) (l : list (N * N)) : list (N * N) :=
   | (i, k) :: t => if memN k seen then first_of_kind seen t else (i, k) :: first_of_kind (k :: seen) t
   end.
 
-Definition c01_check_all (cs : list ohistory) : list (N * N) :=
-  all_check (fun h => first_of_kind [] (hist_check (fun h pre st => c01_step (h_preddeny h) pre st) h)) 0 cs.
-Definition c02_check_all (cs : list ohistory) : list (N * N) :=
-  all_check (fun h => first_of_kind [] (hist_check (fun _ pre st => c02_step pre st) h)) 0 cs.
-Definition c03_check_all (cs : list ohistory) : list (N * N) :=
-  all_check (fun h => first_of_kind [] (hist_check (fun _ _ st => c03_state (st_obs st)) h)) 0 cs.
+Definition c01_oracle_all (cs : list ohistory) : list (N * N) :=
+  all_check (fun h => first_of_kind [] (hist_check_poison 100 (fun h pre st => c01_step (h_preddeny h) pre st) h)) 0 cs.
+Definition c02_oracle_all (cs : list ohistory) : list (N * N) :=
+  all_check (fun h => first_of_kind [] (hist_check_poison 200 (fun _ pre st => c02_step pre st) h)) 0 cs.
+Definition c03_oracle_all (cs : list ohistory) : list (N * N) :=
+  all_check (fun h => first_of_kind [] (hist_check_poison 300 (fun _ _ st => c03_state (st_obs st)) h)) 0 cs.
+(* oracle on the implementation's observations ++ correspondence of the operational model on the ledgers
+   the property is about (191 nodes; 291 queue allocated; 391-393 pending, applications, partition) *)
+Definition c01_check_all (cs : list ohistory) : list (N * N) := c01_oracle_all cs ++ only_kinds 191 191 (model_check_all cs).
+Definition c02_check_all (cs : list ohistory) : list (N * N) := c02_oracle_all cs ++ only_kinds 291 291 (model_check_all cs).
+Definition c03_check_all (cs : list ohistory) : list (N * N) := c03_oracle_all cs ++ only_kinds 391 393 (model_check_all cs).
 Definition c123_check_all (cs : list ohistory) : list (N * N) :=
-  c01_check_all cs ++ c02_check_all cs ++ c03_check_all cs.
+  c01_oracle_all cs ++ c02_oracle_all cs ++ c03_oracle_all cs ++ model_check_all cs.
